@@ -10,5 +10,5 @@ git -C /repo worktree add -q --detach $WT main || exit 2
 cd "$(dirname "$0")"
 VERIF_REPO=$WT ./check $ID $TIER; rc=$?
 git -C /repo worktree remove --force $WT
-rm -f .bin/vmon*srun* 2>/dev/null
+rm -f .bin/vmon*$(printf %s "$WT" | tr -c "a-zA-Z0-9" _)* 2>/dev/null
 if [ $rc = 1 ]; then echo "CAUGHT (exit 1)"; elif [ $rc = 0 ]; then echo "MISSED (exit 0)"; else echo "INCONCLUSIVE/BUILD (exit $rc)"; fi
